@@ -76,6 +76,17 @@ func sections(appState []byte) (map[string]json.RawMessage, error) {
 // exportImportCheck runs the whole C08 oracle on a world (which is committed by the export).
 func exportImportCheck(w *world.World, accounts []*world.Account, fail func(kind, sig, format string, a ...any)) {
 	pre := map[string][]world.KV{"aol": w.Dump("aol"), "did": w.Dump("did")}
+	// pnft: classes, tokens, owner index and owners are compared raw as well (the class supply counter 0x05 is left out: a
+	// deleted denom leaves a zero counter behind that an import legitimately does not recreate); the query answers below
+	// are paginated by the module itself and would hide anything beyond the first page
+	pnftRaw := func(x *world.World) []world.KV {
+		var out []world.KV
+		for _, p := range []byte{0x01, 0x02, 0x03, 0x04} {
+			out = append(out, x.DumpPrefix("pnft", []byte{p})...)
+		}
+		return out
+	}
+	prePnft := pnftRaw(w)
 	preP := pnftAnswers(w, accounts)
 	st1, vals, h, err := w.Export()
 	if err != nil {
@@ -115,6 +126,9 @@ func exportImportCheck(w *world.World, accounts []*world.Account, fail func(kind
 		if post := w2.Dump(s); !world.EqualKVs(pre[s], post) {
 			fail("state-differs", "state-differs:"+s, "%s store differs after export/import: %s", s, world.DiffKVs(pre[s], post))
 		}
+	}
+	if post := pnftRaw(w2); !world.EqualKVs(prePnft, post) {
+		fail("state-differs", "state-differs:pnft-store", "pnft classes/tokens/owners differ after export/import (%d entries before, %d after): %s", len(prePnft), len(post), world.DiffKVs(prePnft, post))
 	}
 	postP := pnftAnswers(w2, accounts)
 	if strings.Join(preP, "\n") != strings.Join(postP, "\n") {
